@@ -40,3 +40,11 @@ Theorem C11_finalizing_counts_as_paused : forall c,
   c_status c = Finalizing -> responder_paused_view c = true.
 Proof. exact finalizing_counts_as_paused. Qed.
 Print Assumptions C11_finalizing_counts_as_paused.
+
+Theorem C11_resume_valid_while_transferring :
+  forall s,
+    (In s TransferringStates \/ s = Requested \/ s = Queued -> valid_in ResumeInitiator s = true) /\
+    (s = Requested \/ s = Queued \/ s = Ongoing \/ s = AwaitingAcceptance ->
+       valid_in ResumeResponder s = true /\ valid_in PauseResponder s = true /\ valid_in PauseInitiator s = true).
+Proof. exact resume_valid_while_transferring. Qed.
+Print Assumptions C11_resume_valid_while_transferring.
